@@ -116,7 +116,7 @@ def make_jobs(items, want, N, settings=None, timeout=150, extra=None):
             j["force_cyclic"] = True
         if extra:
             j.update(extra)
-        for k in ("dparam", "term_goals", "stat_goals", "K", "force_cyclic", "user_typed"):
+        for k in ("dparam", "term_goals", "stat_goals", "K", "force_cyclic", "user_typed", "tail_goals"):
             if k in it:
                 j[k] = it[k]
         jobs.append(j)
@@ -515,3 +515,23 @@ def fixed_templates():
         items.append({"id": "tmpl-" + name, "text": gen.render(P), "T": P, "params": [], "types": None, "points": [{}],
                       "goals": goals, "origin": "fixed template " + name})
     return items
+
+
+def b_tail(ctx):
+    """C11: reported tail bounds are valid for the exact law whenever the stated assumption holds on the support
+    (the spec evaluates the assumption and skips the clause otherwise)"""
+    if ctx.res.get("stage"):
+        raise SkipTrace("refused")
+    P = ctx.srcP
+    for rec in ctx.res.get("tail", []):
+        poly = absyn.mono_of(rec["monom"])
+        if any(v not in P["vars"] for v, _ in poly[0][1]):
+            continue
+        a = F(rec["a"])
+        for kind, t in (("upper", "tailU"), ("lower", "tailL")):
+            for n, val in enumerate(rec[kind][:ctx.N + 1]):
+                if "q" in val:
+                    ctx.claim(n, {"t": t, "pi": ctx.src, "poly": poly, "thr": a, "val": F(val["q"]),
+                                  "tag": f"{kind}:P({rec['monom']} vs {rec['a']})"})
+                else:
+                    ctx.note("tail_" + next(iter(val)))
